@@ -267,6 +267,12 @@ def handle : Handler := fun input impl =>
         match parseObs ikv with
         | none => (modelDrain l [], s!"fail:crash:{impl.take 120}")
         | some o =>
+          -- an oversize cell in which the provider met the line the scanner refuses BEFORE it noticed the harness' cancel
+          -- (it runs ahead of the consumers by its channel buffer): any count up to the expected one, closed sink
+          if oversize l && (getS ikv "run").startsWith "other:" && ((getS ikv "run").splitOn "token_too_long").length > 1 &&
+              o.end_ == .closed && o.delivered ≤ Spec.C08.want l.cell then
+            (impl, "skip:entry-exceeds-maxammosize")
+          else
           if oversize l && (match runLine l with | some m => m.run == .errOther | none => false) then
             -- the scanner refuses the line: `Run` reports it (predicted: how many ammo came before, closed sink)
             let m := modelDrain l ikv
